@@ -298,6 +298,49 @@ func (it *Interp) localMatMethod(m *LocalMat, name string, call *ast.CallExpr) V
 			r.Cells[k] = it.newLoc("cell", c.Val)
 		}
 		return r
+	case "Slice", "ConstSlice", "MagicSlice":
+		// sub-matrix view: shares the element locations
+		if len(call.Args) == 4 {
+			r0, ok1 := constIndex(it.evalTerm(call.Args[0]))
+			r1, ok2 := constIndex(it.evalTerm(call.Args[1]))
+			c0, ok3 := constIndex(it.evalTerm(call.Args[2]))
+			c1, ok4 := constIndex(it.evalTerm(call.Args[3]))
+			if !ok1 || !ok2 || !ok3 || !ok4 {
+				it.undecided(call.Pos(), "local matrix slice bound is not a constant")
+			}
+			if r0 < 0 || c0 < 0 || r1 > m.Rows || c1 > m.Cols || r0 > r1 || c0 > c1 {
+				it.path.Panic = true
+				it.path.Events = append(it.path.Events, Event{Kind: "panic", Pos: call.Pos(), Msg: "matrix slice out of range"})
+				it.done = true
+				return &LocalMat{Cells: map[string]*Loc{}}
+			}
+			r := &LocalMat{Rows: r1 - r0, Cols: c1 - c0, Cells: map[string]*Loc{}}
+			for i := r0; i < r1; i++ {
+				for j := c0; j < c1; j++ {
+					r.Cells[matKey(i-r0, j-c0)] = m.Cells[matKey(i, j)]
+				}
+			}
+			return r
+		}
+	case "Col", "Row":
+		// writable views share the element locations as well
+		k, ok := constIndex(it.evalTerm(call.Args[0]))
+		if !ok {
+			it.undecided(call.Pos(), "local matrix row/column index is not a constant")
+		}
+		n := m.Rows
+		if name == "Row" {
+			n = m.Cols
+		}
+		v := &LocalVec{Len: sym.Int(int64(n)), Cells: map[string]*Loc{}}
+		for i := 0; i < n; i++ {
+			if name == "Col" {
+				v.Cells[sym.Int(int64(i)).String()] = m.Cells[matKey(i, k)]
+			} else {
+				v.Cells[sym.Int(int64(i)).String()] = m.Cells[matKey(k, i)]
+			}
+		}
+		return v
 	case "ConstCol", "ConstRow":
 		// read-only views share the element locations
 		k, ok := constIndex(it.evalTerm(call.Args[0]))
